@@ -26,7 +26,9 @@ Inductive jv :=
 | JList (l : list jv) | JMap (kv : list (jv * jv)).
 
 Inductive dprim := DInt (lo hi : option Z) | DDouble | DBool | DText | DDate | DBytes.
-Inductive dty := DPrim (p : dprim) | DRef (c : nat) | DArr (e : dty).
+(** DWrap p: a member declared XmlAttribute(T) / XmlData(T) for a leaf type T — in a dict
+    document a plain member of the wrapped type *)
+Inductive dty := DPrim (p : dprim) | DRef (c : nat) | DArr (e : dty) | DWrap (p : dprim).
 
 (** one entry of _type_info: name, type, min_occurs, max_occurs (None = unbounded), nullable *)
 Record dfield := mkdf { df_name : text; df_ty : dty; df_min : Z; df_max : option Z; df_nullable : bool }.
@@ -50,10 +52,14 @@ Record leaf_cfg := mkleafcfg {
   lc_bool_identity : bool;      (* _ret_bool: 'value is True or value is False' rather than 'value in (True, False)' *)
   lc_int_from_float : bool;     (* _ret_number / msgpack integer_from_bytes: Integer members get int(value) for integral floats, refuse the others *)
   lc_null_object_none : bool;   (* _from_dict_value: a null ComplexModel / Array member is None, not _doc_to_object(None) = [] *)
+  lc_unwrap_first : bool;       (* _from_dict_value: XmlAttribute / XmlData is unwrapped BEFORE validate() looks at the class
+                                   (otherwise validate sees a wrapper class that is no Unicode / text-borne type and lets
+                                   lists, maps and numbers through to Unicode members) *)
   lc_int_refuses_containers : bool  (* msgpack integer_from_bytes: a list or a map is refused (JSON / YAML _ret_number always does);
                                        decides no type: under validator='soft' a passed-through container fails validate_native *)
 }.
-Definition leaf_cfg_ok (c : leaf_cfg) : bool := lc_bool_identity c && lc_int_from_float c && lc_null_object_none c.
+Definition leaf_cfg_ok (c : leaf_cfg) : bool :=
+  lc_bool_identity c && lc_int_from_float c && lc_null_object_none c && lc_unwrap_first c.
 
 Definition dget (U : duniverse) (c : nat) : option dcls := nth_error U c.
 
@@ -141,7 +147,7 @@ Fixpoint has_dtype (U : duniverse) (v : nv) (t : dty) {struct v} : Prop :=
              end
       | _ => False
       end
-  | _ => match t with DPrim p => leaf_has p v | _ => False end
+  | _ => match t with DPrim p | DWrap p => leaf_has p v | _ => False end
   end.
 
 Definition dmember_has (U : duniverse) (f : dfield) (x : nv) : Prop :=
@@ -354,8 +360,9 @@ Section Dict.
     end.
 
   (** _from_dict_value for a leaf class *)
-  Definition leaf_in (p : dprim) (nullable : bool) (d : jv) : out nv :=
-    if d_soft C && negb (validate_pre p nullable d) then VFault
+  Definition leaf_in (wrapped : bool) (p : dprim) (nullable : bool) (d : jv) : out nv :=
+    if d_soft C && negb (if wrapped && negb (lc_unwrap_first (d_leaf C)) then true   (* validate() on the wrapper class: nothing to check *)
+                         else validate_pre p nullable d) then VFault
     else if negb (guard_pre p d) then VFault
     else
       do d' <- norm_bytes p d;
@@ -460,7 +467,7 @@ Section Dict.
     | JNull => Ok (NList [])                                          (* if doc is None: return [] *)
     | _ =>
       match t with
-      | DPrim _ => Crash TypeError
+      | DPrim _ | DWrap _ => Crash TypeError
       | DArr e => d2o_arr rec e d
       | DRef c => d2o_obj rec c d
       end
@@ -488,7 +495,8 @@ Section Dict.
     | O => Crash OtherExn
     | S k =>
         match t with
-        | DPrim p => leaf_in p nullable d
+        | DPrim p => leaf_in false p nullable d
+        | DWrap p => leaf_in true p nullable d
         | _ => do v <- complex_in (fdv k) t d; complex_post nullable v
         end
     end.
@@ -507,7 +515,7 @@ End Dict.
 
 (** does a type / universe mention ByteArray? *)
 Fixpoint dty_no_bytes (t : dty) : bool :=
-  match t with DPrim DBytes => false | DPrim _ => true | DRef _ => true | DArr e => dty_no_bytes e end.
+  match t with DPrim DBytes | DWrap DBytes => false | DPrim _ | DWrap _ => true | DRef _ => true | DArr e => dty_no_bytes e end.
 Definition duniv_no_bytes (U : duniverse) : bool :=
   forallb (fun cl => forallb (fun f => dty_no_bytes (df_ty f)) (dc_own cl)) U.
 
